@@ -412,7 +412,7 @@ type c05cEnv struct {
 }
 
 func c05cNewEnv() (*c05cEnv, error) {
-	base, err := os.MkdirTemp("", "vh-c05c-")
+	base, err := lib.MkScratch("vh-c05c-")
 	if err != nil {
 		return nil, err
 	}
@@ -557,8 +557,10 @@ func (e *c05cEnv) run(in c05cInput) (out c05cReal) {
 		out.tie = "invalid case: " + err.Error()
 		return
 	}
-	if !strings.HasPrefix(e.rootA, os.TempDir()+"/") || !strings.HasPrefix(e.rootB, os.TempDir()+"/") {
-		out.tie = "scratch roots are not below the temp dir"
+	okA, _ := lib.InScratch("", e.rootA)
+	okB, _ := lib.InScratch("", e.rootB)
+	if !okA || !okB || !filepath.IsAbs(e.rootA) || !filepath.IsAbs(e.rootB) {
+		out.tie = "scratch roots are not inside a scratch directory"
 		return
 	}
 	defer func() {
